@@ -361,6 +361,46 @@ func runHistory(s kvs.Storage, cfg config, base time.Time) ([]hist.Rec, map[stri
 	return all, supplied
 }
 
+// bigGetMany (at the quiescent end of a history): one GetMany over 130-300 keys (the history's few keys, cycled)
+// must answer position by position what single Gets answer.
+func bigGetMany(s kvs.Storage, cfg config, recs []hist.Rec, run *report.Run) *finding {
+	ctx := context.Background()
+	n := 130 + int(cfg.Seed%171)
+	keys := make([]string, n)
+	for i := range keys {
+		keys[i] = keyName(i % (cfg.Keys + 1)) // one key more than the history used: always absent
+	}
+	single := map[string]*kvs.Record{}
+	for i := 0; i <= cfg.Keys; i++ {
+		if r, err := s.Get(ctx, keyName(i)); err == nil {
+			rc := r
+			single[keyName(i)] = &rc
+		}
+	}
+	res, err := s.GetMany(ctx, keys...)
+	run.Add("big_getmany_calls_"+cfg.Backend, 1)
+	if err != nil {
+		return &finding{cfg.Backend + "/GetMany/undocumented-error", fmt.Sprintf("GetMany of %d keys returned the error %v", n, err), witness{Cfg: cfg, History: recs}}
+	}
+	if len(res) != n {
+		return &finding{cfg.Backend + "/GetMany/result-length", fmt.Sprintf("GetMany of %d keys returned %d entries", n, len(res)), witness{Cfg: cfg, History: recs}}
+	}
+	for i, r := range res {
+		want := single[keys[i]]
+		if want != nil && want.ExpiresAt != nil && time.Until(*want.ExpiresAt) < time.Minute {
+			continue // a record about to expire may be gone between the two reads
+		}
+		switch {
+		case r == nil && want == nil:
+		case r == nil || want == nil:
+			return &finding{cfg.Backend + "/GetMany/position-differs-from-Get", fmt.Sprintf("GetMany of %d keys: position %d (key %s) is %v, a single Get says %v (nothing is running)", n, i, keys[i], r, want), witness{Cfg: cfg, Key: keys[i], History: recs}}
+		case r.Key != keys[i] || r.Version != want.Version || string(r.Value) != string(want.Value):
+			return &finding{cfg.Backend + "/GetMany/position-differs-from-Get", fmt.Sprintf("GetMany of %d keys: position %d (key %s) holds {%s %q %s}, a single Get says {%s %q %s} (nothing is running)", n, i, keys[i], r.Key, r.Value, r.Version, want.Key, want.Value, want.Version), witness{Cfg: cfg, Key: keys[i], History: recs}}
+		}
+	}
+	return nil
+}
+
 // expiryOfAnotherWrite (Redis, at the quiescent end of a history): every record that is there now and carries no
 // expiry must still be there, unchanged, after the server clock has passed every expiry that any write of the
 // history carried (1 h). A write takes effect as a whole: the expiry of an overwritten record must not stick
@@ -509,7 +549,7 @@ func firstNonRace(recs []hist.Rec, cfg config) int64 { return 1 << 62 }
 func TestCheck(t *testing.T) {
 	run := report.New("C02", "exploration")
 	defer run.Finish(t)
-	run.Rule("concurrent histories of T in 2..8 clients x K in 4..12 operations over 1..3 keys (mix of Create/Get/Put/CasByVersion/Delete/GetMany/PutMany with unique values and occasional re-writes of identical bytes, inmem: writes of records whose expiry has already passed (logically absent, physically awaiting the lazy purge), writes carrying an expiry far in the future or a few milliseconds ahead (it passes during the history: from then on the key may be found absent, and a key seen absent never comes back without a write), hostile Version fields and stale / made-up CAS versions; flavours: mixed, racing creators, racing CAS on one version) recorded at the client boundary and checked (1) by porcupine against the per-key sequential model, (2) for outcomes outside the documented set, (3) for injectivity of version -> write, (4) Redis, at the quiescent end of every history: records without an expiry survive, unchanged, a jump of the server clock past the expiries of the other writes (the expiry of one write must not stick to another). The whole workload is repeated (half as many histories) by a second pass built without the race detector, whose slow-down changes the interleavings. distinct = distinct outcome words (client, operation, key, outcome in call order) among histories in which operations of different clients on one key really overlapped in time")
+	run.Rule("concurrent histories of T in 2..8 clients x K in 4..12 operations over 1..3 keys (mix of Create/Get/Put/CasByVersion/Delete/GetMany/PutMany with unique values and occasional re-writes of identical bytes, inmem: writes of records whose expiry has already passed (logically absent, physically awaiting the lazy purge), writes carrying an expiry far in the future or a few milliseconds ahead (it passes during the history: from then on the key may be found absent, and a key seen absent never comes back without a write), hostile Version fields and stale / made-up CAS versions; flavours: mixed, racing creators, racing CAS on one version) recorded at the client boundary and checked (1) by porcupine against the per-key sequential model, (2) for outcomes outside the documented set, (3) for injectivity of version -> write, (4) Redis, at the quiescent end of every history: records without an expiry survive, unchanged, a jump of the server clock past the expiries of the other writes (the expiry of one write must not stick to another). (5) at the quiescent end: one GetMany of 130-300 keys answers position by position what single Gets answer. The whole workload is repeated (half as many histories) by a second pass built without the race detector, whose slow-down changes the interleavings. distinct = distinct outcome words (client, operation, key, outcome in call order) among histories in which operations of different clients on one key really overlapped in time")
 	run.Assume("Redis backend runs against the in-process miniredis server with random per-command delays injected by its pre-hook")
 	run.Assume("the version reported together with ErrExist is not judged here (C03)")
 
@@ -593,6 +633,9 @@ func TestCheck(t *testing.T) {
 						}
 					}
 					for _, f := range judge(cfg, recs, supplied, run) {
+						run.Violation(f.sig, f.what, f.w)
+					}
+					if f := bigGetMany(s, cfg, recs, run); f != nil {
 						run.Violation(f.sig, f.what, f.w)
 					}
 					if rs != nil {
